@@ -58,13 +58,24 @@ theorem iterBody_accepts (P : Problem α) (dir : Direction D α) (pr : Params α
   unfold lsOf at hst hf ⊢
   exact lineSearch_accepts P dir pr stop _ _ _ _ _ _ (lsInit_fuelOut _ _ _ _ _) hf hst
 
-/-- Invariant of the main loop: the current iterate satisfies the quadratic upper bound test or
-    has `L ≥ L_max` (unless the model's fuel ran out). -/
-def QubInv (pr : Params α) (s : St α D) : Prop := s.fuelOut = true ∨ QubOK pr s.curr
+/-- "The initial step-size loop was cut short by a stop request": the stop flag was visible at the
+    tick at which the initialisation ended (the loop polls the flag first, so it was left through the
+    poll and not because the quadratic upper bound was met). -/
+def InitInterrupted (P : Problem α) (d0 : D) (pr : Params α) (stop : Nat → Bool) (x0 gV : Vec α)
+    (gS : α) : Prop :=
+  match initState P d0 pr stop x0 gV gS with
+  | .inl _ => False
+  | .inr s => stop s.tick = true
 
-theorem qubInv_step (P : Problem α) (dir : Direction D α) (pr : Params α) (stop : Nat → Bool)
-    (oot : Bool) (s : St α D) (h : QubInv pr s) :
-    QubInv pr (iterBody P dir pr stop (headStep P pr stop oot s).1 (headStep P pr stop oot s).2.1) := by
+/-- Invariant of the main loop: the current iterate satisfies the quadratic upper bound test or
+    has `L ≥ L_max` (unless the model's fuel ran out) — except the *initial* iterate (`k = 0`) of a
+    solve whose initial step-size loop was interrupted (`I`). -/
+def QubInv (I : Prop) (pr : Params α) (s : St α D) : Prop :=
+  s.fuelOut = true ∨ QubOK pr s.curr ∨ (I ∧ s.k = 0)
+
+theorem qubInv_step (I : Prop) (P : Problem α) (dir : Direction D α) (pr : Params α)
+    (stop : Nat → Bool) (oot : Bool) (s : St α D) (h : QubInv I pr s) :
+    QubInv I pr (iterBody P dir pr stop (headStep P pr stop oot s).1 (headStep P pr stop oot s).2.1) := by
   have hs := headStep_same P pr stop oot s
   generalize hs' : (headStep P pr stop oot s).1 = s' at hs
   generalize (headStep P pr stop oot s).2.1 = eps
@@ -78,44 +89,58 @@ theorem qubInv_step (P : Problem α) (dir : Direction D α) (pr : Params α) (st
         · rfl
         · rw [hx] at hf; simp at hf
       by_cases hst : stop (lsOf P dir pr stop s').tick = true
-      · rw [(iterBody_interrupted P dir pr stop s' eps hst).1, hs.1]; exact h
+      · rw [(iterBody_interrupted P dir pr stop s' eps hst).1, hs.1,
+          (iterBody_interrupted P dir pr stop s' eps hst).2.2.1, hs.2.1]; exact h
       · have ha := iterBody_accepts P dir pr stop s' eps (by simpa using hst) hlsf
-        rw [ha.1]; exact ha.2.1.1
+        left; rw [ha.1]; exact ha.2.1.1
     · left; exact hf
 
 /-- **Every iterate a solve returns satisfies the generated quadratic-upper-bound test, or its
-    `L` reached `L_max`.** -/
+    `L` reached `L_max`** — with one exception since the initial step-size loop polls the stop flag
+    (C19): a solve whose initial loop was cut short by a stop request (`InitInterrupted`) and that
+    returns the initial iterate (zero iterations). -/
 theorem zerofpr_final_iterate_qub (P : Problem α) (dir : Direction D α) (d0 : D) (pr : Params α)
     (stop : Nat → Bool) (oot : Bool) (x0 y Sig errz0 gV : Vec α) (gS : α) (c : Iterate α)
     (hfuel : (run P dir d0 pr stop oot x0 y Sig errz0 gV gS).fuelOut = false)
-    (hc : (run P dir d0 pr stop oot x0 y Sig errz0 gV gS).final = some c) : QubOK pr c := by
-  unfold run at hfuel hc
-  cases hi : initState P d0 pr x0 gV gS with
+    (hc : (run P dir d0 pr stop oot x0 y Sig errz0 gV gS).final = some c) :
+    QubOK pr c ∨ (InitInterrupted P d0 pr stop x0 gV gS ∧
+      (run P dir d0 pr stop oot x0 y Sig errz0 gV gS).stats.iterations = 0) := by
+  have hII : ∀ s, initState P d0 pr stop x0 gV gS = .inr s →
+      (stop s.tick = true ↔ InitInterrupted P d0 pr stop x0 gV gS) := by
+    intro s hs; unfold InitInterrupted; rw [hs]
+  unfold run at hfuel hc ⊢
+  cases hi : initState P d0 pr stop x0 gV gS with
   | inl t => simp [hi] at hc
   | inr s =>
-    simp only [hi] at hfuel hc
-    have h0 : QubInv pr s := by
+    simp only [hi] at hfuel hc ⊢
+    have hk0 : s.k = 0 := (initState_good P d0 pr stop x0 gV gS s hi).2.1
+    have h0 : QubInv (InitInterrupted P d0 pr stop x0 gV gS) pr s := by
       by_cases hfo : s.fuelOut = true
       · exact .inl hfo
       · right
-        unfold initState at hi
-        simp only [] at hi
-        split_ifs at hi
-        injection hi with hi; subst hi
-        exact initQub_qubOK P pr _ _ _ _ (by simpa using hfo)
-    rcases mainLoop_cases P dir pr stop oot x0 y Sig errz0 (QubInv pr)
-      (fun s hs _ => qubInv_step P dir pr stop oot s hs) (pr.maxIter + 2) s h0
+        by_cases hst : stop s.tick = true
+        · exact .inr ⟨(hII s hi).mp hst, hk0⟩
+        · left
+          unfold initState at hi
+          simp only [] at hi
+          split_ifs at hi
+          injection hi with hi; subst hi
+          exact initQub_qubOK P pr stop _ _ _ _ (by simpa using hfo) (by simpa using hst)
+    rcases mainLoop_cases P dir pr stop oot x0 y Sig errz0 (QubInv (InitInterrupted P d0 pr stop x0 gV gS) pr)
+      (fun s hs _ => qubInv_step _ P dir pr stop oot s hs) (pr.maxIter + 2) s h0
       with ⟨s', hI, _, he⟩ | ⟨s', _, he⟩
-    · rw [he] at hfuel hc
+    · rw [he] at hfuel hc ⊢
       have hs := headStep_same P pr stop oot s'
       have hx := exitBlock_spec pr (headStep P pr stop oot s').1 (headStep P pr stop oot s').2.1
         (headStep P pr stop oot s').2.2 x0 y Sig errz0
       rw [hx.2.2.2.2.2.1, hs.2.2.2.2.1] at hfuel
       rw [hx.2.2.2.2.1, hs.1] at hc
+      rw [hx.2.2.1, hs.2.1]
       injection hc with hc; subst hc
-      rcases hI with hI | hI
+      rcases hI with hI | hI | hI
       · rw [hI] at hfuel; exact absurd hfuel (by decide)
-      · exact hI
+      · exact .inl hI
+      · exact .inr hI
     · rw [he] at hfuel; simp at hfuel
 
 end structural
@@ -261,11 +286,11 @@ theorem zerofpr_gamma_antitone_gammaL_const (P : Problem α) (dir : Direction D 
     ∀ cb ∈ (run P dir d0 pr stop oot x0 y Sig errz0 gV gS).callbacks,
       0 < cb.it.gamma ∧ cb.it.gamma * cb.it.L = pr.LgammaFactor := by
   unfold run
-  cases hi : initState P d0 pr x0 gV gS with
+  cases hi : initState P d0 pr stop x0 gV gS with
   | inl t => simp
   | inr s =>
     simp only []
-    have h0 := initState_gammaInv P d0 pr x0 gV gS hmin hmax hfac s hi
+    have h0 := initState_gammaInv P d0 pr stop x0 gV gS hmin hmax hfac s hi
     have key : ∀ (s' : St α D) (eps : α) (st : SolverStatus), GammaInv pr.LgammaFactor s' →
         (exitBlock pr s' eps st x0 y Sig errz0).callbacks.Pairwise
           (fun a b => b.it.gamma ≤ a.it.gamma) ∧
